@@ -5,6 +5,7 @@ package main
 
 import (
 	"context"
+	"math"
 	"encoding/json"
 	"fmt"
 	"os"
@@ -310,15 +311,22 @@ func rsemScenario(c *Ctx, sh *shard, scen int) {
 	if copyHeavy {
 		tk = tokenizers[1+c.intn(len(tokenizers)-1)]
 	}
+	// profile "range-merge": many tiny single-partition files whose minmax ranges nest and overlap in
+	// every order (and sometimes saturate on one side), combined by a merge with room for all of them
+	rangeMerge := !copyHeavy && c.chance(0.25)
 	cfg := bs.DefaultBloomSearchEngineConfig()
 	cfg.Tokenizer = tk.fn
 	cfg.MinMaxIndexes = []string{"n"}
-	usePartition := c.chance(0.6) || copyHeavy
+	usePartition := (c.chance(0.6) || copyHeavy) && !rangeMerge
 	if usePartition {
 		cfg.PartitionFunc = func(row map[string]any) string { p, _ := row["p"].(string); return p }
 	}
 	cfg.MaxRowGroupRows = 2 + c.intn(8)
 	cfg.MaxBufferedRows = 3 + c.intn(12)
+	if rangeMerge {
+		cfg.MaxRowGroupRows = 64
+		cfg.MaxBufferedRows = 64
+	}
 	cfg.MaxBufferedTime = time.Hour
 	cfg.BloomFalsePositiveRate = []float64{0.5, 0.1, 0.001}[c.intn(3)]
 	cfg.RowDataCompression = []bs.CompressionType{bs.CompressionNone, bs.CompressionSnappy, bs.CompressionZstd}[c.intn(3)]
@@ -382,7 +390,24 @@ func rsemScenario(c *Ctx, sh *shard, scen int) {
 		if tr.partition != "a" && tr.partition != "" && tr.partition != "b" {
 			pn = 0.25
 		}
-		if c.chance(pn) {
+		if rangeMerge {
+			mag := []int64{3, 40, 500, 6000}[c.intn(4)]
+			z := int64(c.intn(int(2*mag+1))) - mag
+			var nv numVal
+			switch x := c.intn(12); {
+			case x == 0:
+				nv = numVal{v: -1e30, coq: gFloat(false, -1e30), kind: "float64", numeric: true, jsonOK: true}
+			case x == 1:
+				nv = numVal{v: uint64(1<<63 + 5), coq: gUint(false, 1<<63+5), kind: "uint64", numeric: true, jsonOK: true}
+			default:
+				nv = numVal{v: z, coq: gInt(false, z), kind: "int64", numeric: true, jsonOK: true}
+			}
+			m["n"] = nv.v
+			tr.vals["n"] = nv
+			if lo, hi, ok := bs.ConvertToMinMaxInt64(nv.v); ok {
+				near["n"] = append(near["n"], lo, hi)
+			}
+		} else if c.chance(pn) {
 			nv := c.genNum()
 			for !nv.jsonOK {
 				nv = c.genNum()
@@ -400,6 +425,9 @@ func rsemScenario(c *Ctx, sh *shard, scen int) {
 		if copyHeavy {
 			n = 3 * (1 + c.intn(2))
 		}
+		if rangeMerge {
+			n = 1 + c.intn(3)
+		}
 		if i+n > len(rows) {
 			n = len(rows) - i
 		}
@@ -409,13 +437,13 @@ func rsemScenario(c *Ctx, sh *shard, scen int) {
 		}
 		must(eng.IngestRows(ctx, batch, make(chan error, 1)))
 		i += n
-		if c.chance(0.3) || copyHeavy {
+		if c.chance(0.3) || copyHeavy || rangeMerge {
 			must(eng.Flush(ctx))
 		}
 	}
 	must(eng.Flush(ctx))
 	merged := false
-	if c.chance(0.45) || copyHeavy {
+	if c.chance(0.45) || copyHeavy || rangeMerge {
 		if _, err := eng.Merge(ctx); err != nil {
 			c.violation("e2e-merge-error", "Merge failed on healthy stores: "+err.Error(), nil)
 		} else {
@@ -530,7 +558,13 @@ func rsemScenario(c *Ctx, sh *shard, scen int) {
 		}
 	}
 	c.dist("e2e_external_file", fmt.Sprint(external))
-	c.dist("e2e_profile", map[bool]string{true: "copy-heavy", false: "random"}[copyHeavy])
+	prof := "random"
+	if copyHeavy {
+		prof = "copy-heavy"
+	} else if rangeMerge {
+		prof = "range-merge"
+	}
+	c.dist("e2e_profile", prof)
 	c.dist("e2e_scenario", fmt.Sprintf("fs=%v merged=%v partition=%v tok=%s comp=%s fpr=%v", useFS, merged, usePartition, tk.name, cfg.RowDataCompression, cfg.BloomFalsePositiveRate))
 
 	// observe the layout through the public helpers
@@ -767,6 +801,30 @@ func rsemScenario(c *Ctx, sh *shard, scen int) {
 		pcoq := "None"
 		if hasP {
 			e, ecoq := c.genPExpr(2, []string{"n", "n", "zz"}, near) // "zz" is never indexed: strictness
+			// a strict comparison just beyond the exact bound of a block whose range is saturated on the
+			// other side only: such a block must still be pruned
+			if c.chance(0.35) {
+				var cands []bs.NumericCondition
+				for _, of := range files {
+					for _, ob := range of.blocks {
+						idx, has := ob.meta.MinMaxIndexes["n"]
+						if !has {
+							continue
+						}
+						if idx.Min == math.MinInt64 && idx.Max < math.MaxInt64-2 {
+							cands = append(cands, bs.NumericGreaterThan(idx.Max+int64(c.intn(2))), bs.NumericNotBetween(math.MinInt64, idx.Max))
+						}
+						if idx.Max == math.MaxInt64 && idx.Min > math.MinInt64+2 {
+							cands = append(cands, bs.NumericLessThan(idx.Min-int64(c.intn(2))), bs.NumericNotBetween(idx.Min, math.MaxInt64))
+						}
+					}
+				}
+				if len(cands) > 0 {
+					e = bs.MinMax("n", cands[c.intn(len(cands))])
+					ecoq = coqPExprOf(&e)
+					c.dist("pexpr_nodes", "one-sided-saturation-probe")
+				}
+			}
 			q.Prefilter = &bs.QueryPrefilter{Expression: &e}
 			pcoq = "(Some " + ecoq + ")"
 		}
